@@ -25,7 +25,11 @@ def main():
         print("confirmation failed, not importing:", vdir, conf)
         return 1
     prop = meta["property"]
-    sid = f"{prop}-{meta.get('variant', os.path.basename(vdir))}"
+    variant = meta.get('variant', os.path.basename(vdir))
+    rnd = int(os.environ.get("SEED_ROUND", "1"))
+    if rnd > 1 and len(variant) == 1:
+        variant = chr(ord(variant) + 2 * (rnd - 1))   # round 2: A,B -> C,D ; round 3: E,F
+    sid = f"{prop}-{variant}"
     out = os.path.join(HERE, "seeded", sid)
     os.makedirs(out, exist_ok=True)
     shutil.copy(os.path.join(vdir, "patch.diff"), os.path.join(out, "patch.diff"))
@@ -48,7 +52,8 @@ def main():
         "origin": "written by an independent sub-agent that was given only the property text and a scratch worktree",
         "demonstration": demos,
         "confirmed_by_me": {
-            "scratch_worktree": "git worktree of /repo under /tmp/seed (removed afterwards)",
+            "scratch_worktree": "git worktree of /repo under /tmp (removed afterwards)",
+            "round": rnd,
             "ran": conf.get("ran"),
             "suite_passes_with_change": conf.get("suite_passes_with_change"),
             "demo_fails_with_change": conf.get("demo_fails_with_change"),
